@@ -325,8 +325,14 @@ impl<'a> fmt::Display for TyDisp<'a> {
             },
             MTy::App(n, a) => {
                 write!(f, "{}", n)?;
-                if !a.is_empty() {
-                    write!(f, "<")?;
+                // naming convention: a struct called `Lt..` / `Cn..` / `Lc..` declares a lifetime / a const / both before its
+                // type parameters (the model itself only knows the type parameters)
+                let lead = lead_args(n);
+                if !a.is_empty() || !lead.is_empty() {
+                    write!(f, "<{}", lead)?;
+                    if !a.is_empty() && !lead.is_empty() {
+                        write!(f, ", ")?;
+                    }
                     list(f, a)?;
                     write!(f, ">")?;
                 }
@@ -362,6 +368,41 @@ pub fn pred_text(p: &MPred) -> String {
     s
 }
 
+/// Arguments for the leading non-type parameters implied by a struct's name (see `TyDisp`).
+pub fn lead_args(name: &str) -> &'static str {
+    if name.starts_with("Lt") {
+        "'static"
+    } else if name.starts_with("Cn") {
+        "3"
+    } else if name.starts_with("Lc") {
+        "'static, 3"
+    } else {
+        ""
+    }
+}
+
+fn lead_params(name: &str) -> &'static str {
+    if name.starts_with("Lt") {
+        "'a"
+    } else if name.starts_with("Cn") {
+        "const N"
+    } else if name.starts_with("Lc") {
+        "'a, const N"
+    } else {
+        ""
+    }
+}
+
+fn struct_generics(name: &str, n: usize) -> String {
+    let lead = lead_params(name);
+    if lead.is_empty() {
+        return generics(n, 0);
+    }
+    let mut parts = vec![lead.to_string()];
+    parts.extend((0..n).map(var_name));
+    format!("<{}>", parts.join(", "))
+}
+
 fn generics(n: usize, from: usize) -> String {
     if n == 0 {
         String::new()
@@ -384,7 +425,7 @@ pub fn struct_text(st: &MStruct) -> String {
     let wh = if st.wheres.is_empty() { String::new() } else { format!(" where {}", st.wheres.iter().map(pred_text).collect::<Vec<_>>().join(", ")) };
     if st.variants.is_empty() {
         let fields: Vec<String> = st.fields.iter().enumerate().map(|(i, t)| format!("f{}: {}", i, TyDisp(t))).collect();
-        format!("{}struct {}{}{} {{ {} }}\n", attrs, st.name, generics(st.nparams, 0), wh, fields.join(", "))
+        format!("{}struct {}{}{} {{ {} }}\n", attrs, st.name, struct_generics(&st.name, st.nparams), wh, fields.join(", "))
     } else {
         let mut vs = vec![];
         let mut k = 0;
@@ -393,7 +434,7 @@ pub fn struct_text(st: &MStruct) -> String {
             k += n;
             vs.push(format!("X{} {{ {} }}", vi, fs.join(", ")));
         }
-        format!("{}enum {}{}{} {{ {} }}\n", attrs, st.name, generics(st.nparams, 0), wh, vs.join(", "))
+        format!("{}enum {}{}{} {{ {} }}\n", attrs, st.name, struct_generics(&st.name, st.nparams), wh, vs.join(", "))
     }
 }
 
